@@ -10,7 +10,7 @@ from sdc11073.httpserver.httprequesthandler import DispatchingRequestHandler
 from sdc11073.pysoap.soapclient import SoapClient
 
 
-class SpinDetected(Exception):  # noqa: N818
+class SpinDetected(BaseException):  # noqa: N818  (not an Exception: a catch-all in the library must not hide it)
     """The handler kept reading from a stream that is at EOF (stand-in for 'spins forever')."""
 
 
